@@ -177,6 +177,11 @@ def run(ctx, rep):
                     key = f"{be}:{f['name']}:{form or 'UNKNOWN'}" + (':joined' if sep is not None else '')
                     site = {'file': f['file'], 'line': s['line']}
                     if form is None:
+                        # the text may pass through a string builder the evaluator does not model (a helper that assembles the
+                        # comment in a loop with push_str): the comment form is then inside that helper — no verdict, not a finding
+                        builders = [v for v in c[2] if any(g['name'].split('::')[-1] == v and g['file'] == f['file'] and g.get('loops') and any(cc.get('f') in ('push_str', 'push') for cc in g['calls']) for g in ctx.astq['functions'])]
+                        if builders:
+                            raise core.Incomplete(f"X2: {be}: in {f['qual']} the doc text passes through `{builders[0]}`, which assembles its result in a loop with push_str — the comment form written there is not modelled")
                         rep.fail('X2', key + ':' + re.sub(r'\W+', '_', emit.seq_str(seq[max(0, ix - 1):ix])[:20]), f"{be}: doc text reaches the output in {f['qual']} outside any recognised comment form: {emit.seq_str(seq)[:140]}", site)
                         continue
                     ok = adequate(form, c[2], sep)
